@@ -7,6 +7,7 @@ package c43
 
 import (
 	"fmt"
+	"os"
 	"sort"
 	"strings"
 	"testing"
@@ -21,10 +22,10 @@ import (
 const (
 	kfRenameTrigger   = "C43-rename-table-orphans-trigger"
 	kfShowTriggersDB  = "C43-show-triggers-from-db-ignored"
-	kfViewsEmpty      = "C43-views-table-empty"
 	kfDropTableTrig   = "C43-drop-table-keeps-trigger"
-	kfInvalidViewList = "C43-invalid-view-breaks-listing"
+	kfInvalidViewList = "C43-invalid-view-not-listed"
 	kfBacktickColumn  = "C43-backtick-stripped-from-column-name"
+	kfShowIndexTable  = "C43-show-index-stale-table-name"
 )
 
 var dbs = []string{"d", "e"}
@@ -69,7 +70,7 @@ func newMachine(st *stats.Collector) *machine {
 	for _, db := range dbs {
 		m.sess[db] = m.f.NewSession("root", "localhost", db)
 	}
-	for _, id := range []string{kfRenameTrigger, kfShowTriggersDB, kfViewsEmpty, kfDropTableTrig, kfInvalidViewList, kfBacktickColumn} {
+	for _, id := range []string{kfRenameTrigger, kfShowTriggersDB, kfDropTableTrig, kfInvalidViewList, kfBacktickColumn, kfShowIndexTable} {
 		m.avoid[id] = kf.Listed(id)
 	}
 	m.colPool = colNames
@@ -97,12 +98,18 @@ func (m *machine) exec(rt *rapid.T, action, q string) bool {
 	if r.Panic != nil {
 		m.dead = true
 		m.st.Class("abandoned-panic:" + action)
+		if os.Getenv("C43_DEBUG") != "" {
+			fmt.Printf("PANIC %v\n%s\nHISTORY\n%s;\n%s\n", r.Panic, firstLines(r.Stack, 14), strings.Join(m.history, ";\n"), q)
+		}
 		rt.Logf("PANIC (case abandoned) %s: %v", q, r.Panic)
 		return false
 	}
 	if !r.OK() {
 		m.dead = true
 		m.st.Class("abandoned-rejected:" + action)
+		if os.Getenv("C43_DEBUG") != "" {
+			fmt.Printf("REJECTED %v\nHISTORY\n%s;\n%s\n", r.Err, strings.Join(m.history, ";\n"), q)
+		}
 		rt.Logf("REJECTED (case abandoned) %s: %v", q, r.Err)
 		return false
 	}
@@ -111,10 +118,36 @@ func (m *machine) exec(rt *rapid.T, action, q string) bool {
 	return true
 }
 
+// deadPanic unwinds an action of an abandoned case (recovered in step): the remaining steps of
+// the history become no-ops.
+type deadPanic struct{}
+
 func (m *machine) skipIfDead(rt *rapid.T) {
 	if m.dead {
-		rt.Skip("case abandoned")
+		panic(deadPanic{})
 	}
+}
+
+// step wraps an action so that it is a no-op once the case has been abandoned.
+func step(f func(*rapid.T)) func(*rapid.T) {
+	return func(rt *rapid.T) {
+		defer func() {
+			if p := recover(); p != nil {
+				if _, ok := p.(deadPanic); !ok {
+					panic(p)
+				}
+			}
+		}()
+		f(rt)
+	}
+}
+
+func firstLines(s string, n int) string {
+	ls := strings.Split(s, "\n")
+	if len(ls) > n {
+		ls = ls[len(ls)-0:]
+	}
+	return strings.Join(strings.Split(s, "\n")[:min(n*3, len(strings.Split(s, "\n")))], "\n")
 }
 
 func pick[T any](rt *rapid.T, xs []T, label string) T {
@@ -316,6 +349,7 @@ func (m *machine) renameTable(rt *rapid.T) {
 		g.Table = nn
 	}
 	t.Name = nn
+	t.Renamed = true
 }
 
 func (m *machine) addColumn(rt *rapid.T) {
@@ -851,9 +885,6 @@ func inList() string { return "('d', 'e')" }
 // sigsNow returns the ids of known findings whose signature matches the current model state.
 func (m *machine) sigsNow() []string {
 	var ids []string
-	if len(m.cat.Views) > 0 {
-		ids = append(ids, kfViewsEmpty)
-	}
 	for _, t := range m.cat.Tables {
 		for _, ix := range t.Idx {
 			if strings.Contains(strings.Join(ix.Cols, ""), "`") {
@@ -1281,17 +1312,28 @@ func (m *machine) verifyTable(rt *rapid.T, sigs []string, t *mTable) bool {
 	if !r.OK() {
 		return m.fail(rt, sigs, "SHOW INDEX FROM %s failed: %s", name, r)
 	}
+	// listed finding: the Table field of secondary indexes keeps the name the table had when
+	// the index was created; for renamed tables the field is then left out of the comparison
+	tname, from := t.Name, 0
+	isigs := sigs
+	if t.Renamed {
+		isigs = append(append([]string{}, sigs...), kfShowIndexTable)
+		if m.avoid[kfShowIndexTable] {
+			m.st.Excluded("show-index-table-field-of-renamed-table")
+			tname, from = "-", 1
+		}
+	}
 	want := map[string]bool{}
 	for _, ix := range t.Idx {
 		for i, col := range ix.Cols {
-			want[key(t.Name, nonUnique(ix.Unique), ix.Name, i+1, col)] = true
+			want[key(tname, nonUnique(ix.Unique), ix.Name, i+1, col)[2*from:]] = true
 		}
 	}
 	var proj [][]string
 	for _, row := range rows {
-		proj = append(proj, row[:5])
+		proj = append(proj, row[from:5])
 	}
-	if m.compareSets(rt, sigs, "SHOW INDEX FROM "+name+" (table|non_unique|key|seq|column)", proj, want) {
+	if m.compareSets(rt, isigs, "SHOW INDEX FROM "+name+" (table|non_unique|key|seq|column)", proj, want) {
 		return true
 	}
 	// SHOW CREATE TABLE, compared on its structure
@@ -1472,27 +1514,28 @@ func TestC43(t *testing.T) {
 		}
 		m.verify(rt)
 		rt.Repeat(map[string]func(*rapid.T){
-			"createTable":   m.createTable,
-			"dropTable":     m.dropTable,
-			"renameTable":   m.renameTable,
-			"addColumn":     m.addColumn,
-			"dropColumn":    m.dropColumn,
-			"modifyColumn":  m.modifyColumn,
-			"renameColumn":  m.renameColumn,
-			"addPK":         m.addPK,
-			"dropPK":        m.dropPK,
-			"addIndex":      m.addIndex,
-			"dropIndex":     m.dropIndex,
-			"addFK":         m.addFK,
-			"dropFK":        m.dropFK,
-			"addCheck":      m.addCheck,
-			"dropCheck":     m.dropCheck,
-			"createView":    m.createView,
-			"dropView":      m.dropView,
-			"createTrigger": m.createTrigger,
-			"dropTrigger":   m.dropTrigger,
-			"createProc":    m.createProc,
-			"dropProc":      m.dropProc,
+			"createTable":   step(m.createTable),
+			"dropTable":     step(m.dropTable),
+			"renameTable":   step(m.renameTable),
+			"addColumn":     step(m.addColumn),
+			"dropColumn":    step(m.dropColumn),
+			"modifyColumn":  step(m.modifyColumn),
+			"renameColumn":  step(m.renameColumn),
+			"addPK":         step(m.addPK),
+			"dropPK":        step(m.dropPK),
+			"addIndex":      step(m.addIndex),
+			"dropIndex":     step(m.dropIndex),
+			"addFK":         step(m.addFK),
+			"dropFK":        step(m.dropFK),
+			"addCheck":      step(m.addCheck),
+			"dropCheck":     step(m.dropCheck),
+			"createView":    step(m.createView),
+			"dropView":      step(m.dropView),
+			"createTrigger": step(m.createTrigger),
+			"dropTrigger":   step(m.dropTrigger),
+			"createProc":    step(m.createProc),
+			"dropProc":      step(m.dropProc),
+			"noop":          func(*rapid.T) {},
 			"":              m.verify,
 		})
 		if m.dead {
